@@ -27,6 +27,8 @@ ALWAYS_SEARCH = True
 RULE = ('tables of 2-6 columns x 30-300 rows drawn from a Gaussian copula: a random Cholesky factor gives a '
         'positive-definite correlation, the normal scores are pushed through marginal quantile functions from the 8 '
         'families (normal, beta, gamma, uniform, Student t, log-Laplace, truncated normal, a bimodal law for the KDE), '
+        'with the training frame under a random ROW INDEX form (default, shuffled, offset, strings, DatetimeIndex, '
+        'MultiIndex, duplicated; half of the tables), '
         'plus constant columns (about 1 table in 3 has one; 40% of them of INTEGER dtype incl. values beyond 2**53, the '
         'float ones incl. -0.0, 1e300, a denormal), rows as drawn or ORDERED by a column (sorted / blocks / trend, 1 table '
         'in 5), instance configurations WITH OPTIONS (GaussianKDE(weights=non-uniform | bw_method | sample_size), '
@@ -51,6 +53,9 @@ RULE = ('tables of 2-6 columns x 30-300 rows drawn from a Gaussian copula: a ran
         'tables, constant-zoo tables (exact reproduction, integers compared as Python ints), tables of option-carrying '
         'instances (sampled KDE cells checked against an INDEPENDENT weighted kernel cdf), a row-ordered two-mode table '
         'with a selection_sample_size selector (selected family must be near-best on the full column), '
+        'equivalence cases (the same table under 8 row-index forms; the model restored via from_dict (both routes) / '
+        'save-load / get_instance clone / fitted twice; histories fit(A), sample, fit(B), sample — all bitwise equal to a '
+        'fresh model under the same seed, labels of the same TYPE and order), '
         'and tables of GaussianKDE columns at extreme scales whose sampled cells are compared with an '
         'independent float64 bisection of the fitted cdf (deterministic; also applied to every KDE-backed column of '
         'every other search sample)')
@@ -974,7 +979,7 @@ def run(ctx, lean):
     quick = ctx.tier == 'quick'
     rng = ctx.rng('tie')
     nr = ctx.nprng('tie')
-    ntab = 60 * ctx.scale
+    ntab = 50 * ctx.scale
     for t in range(ntab):
         case = make_case(rng, nr, quick)
         ns = [1, rng.randint(2, 200), rng.choice([2, 3, 5, 10, 50, 100, 200])]
@@ -1390,15 +1395,15 @@ def kde_scale_case(rng, nr):
             'seed': ['int', rng.randrange(2 ** 31)], 'ndarray': False}
 
 
-SEL_N, SEL_K = 5000, 3500
+SEL_N, SEL_K = 4000, 2800
 SEL_CANDS = ['GaussianUnivariate', 'UniformUnivariate', 'TruncatedGaussian', 'BetaUnivariate', 'GaussianKDE']
 
 
 def selection_case(rng, nr, ordered=True):
     """a two-mode column (75% in a flat mode, 25% in a far Gaussian mode) modelled by the selector instance
-    `Univariate(candidates=[Gaussian, Uniform, TruncatedGaussian, Beta, KDE], selection_sample_size=3500)` in a table of
-    5000 rows that are ORDERED by that column (ascending with the heavy mode low / descending with it high) or left as
-    drawn.  On a random 3500-subsample only the KDE gets close (KS ~0.10 against >= 0.23 for every parametric
+    `Univariate(candidates=[Gaussian, Uniform, TruncatedGaussian, Beta, KDE], selection_sample_size=2800)` in a table of
+    4000 rows that are ORDERED by that column (ascending with the heavy mode low / descending with it high) or left as
+    drawn.  On a random 2800-subsample only the KDE gets close (KS ~0.10 against >= 0.23 for every parametric
     candidate), so the selection must not depend on the row order."""
     n = SEL_N
     heavy = nr.rand(n) < 0.75
@@ -1434,7 +1439,7 @@ def selection_oracle(ctx, case, stats):
         KS_full(selected) <= min over candidates KS_full + 2 * DKW(k, 1e-9)      (subsample noise at k)
         KS_full(selected) <= DKW(n_train) + 0.1                                   (the marginal-recovery band)
     Deterministic given the table and the seed; with the candidates of `selection_case` a false alarm needs a
-    parametric family to beat the KDE by > 0.13 in KS on a random 3500-subsample (probability < 1e-9)."""
+    parametric family to beat the KDE by > 0.13 in KS on a random 2800-subsample (probability < 1e-9)."""
     from copulas.utils import get_instance
     ep = 'GaussianMultivariate.fit'
     cls = ep + ':selected-family-misses-row-ordered-column'
@@ -1691,11 +1696,11 @@ def equivalence_oracle(ctx, case, other_same, other_diff, stats, n=37, forms=Non
         except Exception as e:  # noqa
             scalar_bw = any(isinstance(leaf_opts(case, j).get('bw_method'), (int, float))
                             for j in range(len(case['labels'])))
-            if name == 'save-load' and scalar_bw and 'pickle' in repr(e).lower():
-                # precise class: scipy's gaussian_kde keeps a LOCAL lambda as covariance_factor when bw_method is a
-                # scalar, so a model holding GaussianKDE(bw_method=<number>) cannot be pickled by save()
-                report('GaussianMultivariate.save:kde-scalar-bw-method-not-picklable', 'GaussianMultivariate.save',
-                       'state:' + name, 'raised ' + repr(e)[:300])
+            if name == 'save-load' and scalar_bw and 'gaussian_kde.set_bandwidth.<locals>.<lambda>' in repr(e):
+                # the route is UNAVAILABLE, not a C01 matter (recorded under C14): scipy keeps a local lambda as
+                # covariance_factor for a scalar bw_method, so such a model cannot be pickled
+                ctx.count('state:pickle-unavailable:scalar-bw-kde')
+                stats['pickle_unavailable_scalar_bw_kde'] = stats.get('pickle_unavailable_scalar_bw_kde', 0) + 1
             else:
                 report('GaussianMultivariate.sample:restored-model-raises', 'GaussianMultivariate.sample', 'state:' + name,
                        'raised ' + repr(e)[:300])
@@ -2087,8 +2092,9 @@ def oracle_case(ctx, case, stats, schema_ns, big, only=None, hunt=0, light=False
     if not big:
         return
     # GaussianKDE.percent_point costs ~0.12 ms per cell: in the shallow (quick-tier) search a model with several
-    # KDE-backed columns is sampled 4000 times instead of 20000 (the bands below scale with n)
-    n = N_BIG if (not light or sum(1 for u in unis if kde_backed(u)) <= 1) else 4000
+    # KDE-backed columns is sampled 8000 / 3000 times (one / several KDE columns) instead of 20000 (the bands below scale with n)
+    nk_ = sum(1 for u in unis if kde_backed(u))
+    n = N_BIG if (not light or nk_ == 0) else (8000 if nk_ == 1 else 3000)
     try:
         out, calls = real_sample(model, case, n, first)
     except Exception as e:  # noqa
@@ -2312,8 +2318,8 @@ def replay(ctx, payload):
     elif 'cols_hex' in inp:
         case = case_from_input(inp)
         n = int(inp.get('n', 1))
-        oracle_case(ctx, case, stats, schema_ns=[n] if n not in (N_BIG, 4000) else [], big=(n in (N_BIG, 4000)),
-                    light=(n == 4000))
+        oracle_case(ctx, case, stats, schema_ns=[n] if n not in (N_BIG, 8000, 4000, 3000) else [],
+                    big=(n in (N_BIG, 8000, 4000, 3000)), light=(n != N_BIG))
     else:
         search(ctx, True)
     return any(f['class'] == cls for f in ctx.failing[before:])
